@@ -34,7 +34,7 @@ func init() {
 		"the cell was reached through a CHECK-verified transition on the termination byte '#'; build() only creates such cells as leaf links whose BASE is the index of the node it has just appended (patterns are assumed not to contain the termination byte). No panicking input was found by 4M random lookups in the design round"
 	c05Table["(*rt/middleware/denco.doubleArray).lookup: da.bc[denco.nextIndex((rt/middleware/denco.baseCheck).Base(da.bc[(φ[φ]&4294967295)]),42)]"] =
 		"the wildcard flag of cell idx is only set by build() right after it has arranged a '*' child for that cell, and findBase extends bc up to every child index; bc never shrinks. (Its sibling, the single-parameter branch, does test nextIdx >= len(da.bc); no panicking input found in the design round)"
-	c05Table["(*rt/middleware/denco.doubleArray).build: call denco.NextSeparator(&srcs[&sib.start:&sib.end][(φ+1)].Record.Key,(depth+1)) establishes precondition on start"] =
+	c05Table["(*rt/middleware/denco.doubleArray).build: call denco.NextSeparator(&srcs[&sib.start:&sib.end][φ].Record.Key,(depth+1)) establishes precondition on start"] =
 		"depth is the recursion depth of build: 0 at the root and depth+1 or 0 in the recursive calls, hence never negative"
 }
 
